@@ -46,6 +46,7 @@ class Ctx:
         self.hints = hints
         self.insts = []
         self.notes = []
+        self.undecided = []
         self.functions = set()
 
     @property
@@ -97,7 +98,7 @@ def load_known():
 def finish(prop, tier, seed, t0, ctx, explanation, rule_texts, min_counts, trusted, extra_cov=None):
     """apply min-instance counts and known findings, write evidence, print verdict.
     Returns exit code."""
-    for r, m in min_counts.items():
+    for r, m in ([] if ctx.undecided else min_counts.items()):
         c = ctx.count(r)
         if any(i.verdict == "violated" and i.rule == ctx.rid(r) for i in ctx.insts):
             continue   # a violated instance may legitimately cut the rule's remaining instances short
@@ -137,6 +138,7 @@ def finish(prop, tier, seed, t0, ctx, explanation, rule_texts, min_counts, trust
         "repo_root": ctx.R.root,
         "samples": samples,
         "notes": ctx.notes,
+        "undecided_rules": [{"rule_function": n, "reason": m} for n, m in ctx.undecided],
         "exhaustive": True,
         "checker_cmd": f"/venv/bin/python bin/check.py --property {prop} --tier {tier}",
         "trusted_base": trusted,
@@ -155,6 +157,10 @@ def finish(prop, tier, seed, t0, ctx, explanation, rule_texts, min_counts, trust
         print(f"   {r}: {d['instances']} instance(s), {d['holds']} hold")
     for i in listed:
         print(f"KNOWN-FINDING: property={prop} {i.key} -- {known[i.key].get('what', i.detail)}")
+    for name, msg in ctx.undecided:
+        print(f"UNDECIDED rule-function {prop}.{name}: {msg}")
+    if ctx.undecided and not new:
+        raise AnalysisError("; ".join(f"{n}: {m}" for n, m in ctx.undecided))
     if new:
         path = os.path.join(OUT, "violations", f"{prop}.json")
         with open(path, "w") as f:
